@@ -25,8 +25,9 @@
                      the rules use) is at a point where its scalar function is
                      differentiable: no 0 for reciprocal / negative powers,
                      positive arguments for sqrt / log, cos <> 0 for tan.
-                     (Norm/Dist singularities are covered by [deriv_ok]: the
-                     code raises there.) *)
+                     point-wise norm > 0 (exponent 2) / no zero entry (exponent 1)
+                     for PointwiseNorm.  (Norm/Dist singularities are covered by
+                     [deriv_ok]: the code raises there.) *)
 From Coq Require Import Reals List Bool ZArith.
 From Verif Require Import Base.Num Base.Vec C06.Syntax Gen.UfuncDeriv C06.Model C06.Calc C06.Lin C06.LinMap C06.Leaves C06.Proofs.
 Import ListNotations.
